@@ -85,7 +85,7 @@ def run_property(pid, build, tier="quick", seed=0, budget_ms=None, thorough_extr
         res = PropResult([], undecided=[("build", f"{type(ex).__name__}: {ex}\n{traceback.format_exc()[-1200:]}")])
     obls = res.obligations
     if budget_ms is None: budget_ms = 12000 if tier == "quick" else 60000
-    if obls:
+    if obls and not getattr(res, "pre_discharged", False):
         solve.discharge(res.engine, obls, budget_ms=budget_ms)
     solver_s = round(sum(o.secs for o in obls), 2)
     known = load_known()
@@ -151,7 +151,7 @@ def run_property(pid, build, tier="quick", seed=0, budget_ms=None, thorough_extr
     for o in proved: by_backend[o.backend] = by_backend.get(o.backend, 0) + 1
     slow = sorted(real, key=lambda o: -o.secs)[:5]
     def sample(o):
-        return {"obligation": o.oid, "function": o.func, "line": o.line, "hypotheses": len(o.hyps), "goal": str(o.goal)[:240], "result": o.result, "solver_s": o.secs, "backend": o.backend}
+        return {"obligation": o.oid, "function": o.func, "line": o.line, "hypotheses": len(o.hyps), "goal": str(o.goal)[:240].replace("\n", " "), "result": o.result, "solver_s": o.secs, "backend": o.backend}
     cov = {
         "obligations": len(real), "discharged": len(proved),
         "checker_cmd": f"cd /verif && ./check {pid} --tier {tier}",
